@@ -70,7 +70,28 @@ def rand_wcs(R):
     else:
         w.wcs.cdelt = [-s, par * s * an]
         rot, skew = 0.0, 0.0
-    return w, W, H, dict(proj=proj, W=W, H=H, rot=rot, skew=skew, par=par, form=form, crpix=kind, scale=s)
+    extra = "none"
+    k = R.random()
+    if k < 0.2:
+        # an explicit, non-default native pole (LONPOLE; for CAR also the other LATPOLE solution)
+        w.wcs.lonpole = R.choice([0.0, 150.0, -35.5, 90.0])
+        if proj == "CAR" and R.random() < 0.5:
+            w.wcs.latpole = R.choice([-90.0, 90.0])
+        extra = "lonpole"
+    if R.random() < 0.3:
+        # the WCS object remembers a pixel grid (NAXISj of the header it came from) that is NOT this image's: a frame with
+        # rows trimmed or padded, a solution computed on a reference image of another size
+        w.pixel_shape = (W + R.choice([0, 3, -1 if W > 1 else 0]), max(1, H + R.choice([25, -7, 140, 1])))
+        extra += "+pixel_shape"
+    try:
+        w.wcs.set()
+        w.all_pix2world([[0.0, 0.0]], 0)
+    except Exception:  # this pole does not exist for this projection / reference point: keep the default pole
+        w.wcs.lonpole = float("nan")
+        w.wcs.latpole = float("nan")
+        w.wcs.set()
+        extra = extra.replace("lonpole", "none")
+    return w, W, H, dict(proj=proj, W=W, H=H, rot=rot, skew=skew, par=par, form=form, crpix=kind, scale=s, extra=extra)
 
 
 def indep_parity(w):
